@@ -154,3 +154,56 @@ def c07(r):
     r.negctl("Trace_Civil", ch_ch[0], {"C07Step": [
         (lambda e: e["op"] == "LunarNext" and bump(["res", 2])(e), "C07.chain.LunarNext"),
         (lambda e: e["op"] == "LunarCtor" and bump(["lun", 2])(e) and bump(["lun", 2])(e) and False or (e["op"] == "LunarCtor" and e["lun"].__setitem__(2, 31) is None), "C07.chain.lunar-shape")]})
+
+
+# --------------------------------------------------------------------- C15
+@plan("C15", "model_checking")
+def c15(r):
+    thorough = r.tier == "thorough"
+    r.rule = ("TLC model-checks MC_Weeks (week cursor over every day of 12 seed months incl. 1582-09..11 x 7 week starts x "
+              "whole-week and month-separated stepping n in -6..6; partition and index laws stated by counting) and every "
+              "position of that model is replayed on real SolarWeek objects (Next(n,false/true) for 15-21 values of n, and back); "
+              "per (month, week start) frames for %s: GetWeeks, GetWeeksOfMonth, SolarMonth.GetDays, every listed week's "
+              "fields/index/indexInYear/first day/days/days in month/first day in month, and every day of the month as a week anchor; "
+              "seasons, half-years, years. Distinct non-trivial case = distinct (month, start) frame or (anchor, start) navigation frame." %
+              ("every month of every year 1..9998" if thorough else "60 seeded + 15 boundary years"))
+    r.build()
+    r.mc("MC_Weeks", "MC_Weeks")
+    pos = r.export_edges("MC_Weeks", "MBT_Weeks")
+    tsv = os.path.join(r.dir, "anchors.tsv")
+    write_lines(tsv, edges_to_tsv(pos))
+    r.cov["replayed_edges"] = len(pos) * 36
+    ch_a = r.drive("c15nav", args={"anchors": tsv}, maxlines=600, label="c15nav_mbt")
+    r.validate("Trace_Civil", ch_a)
+    ch_m = r.drive("c15months", args={"years": 60}, maxlines=1500)
+    r.validate("Trace_Civil", ch_m)
+    ch_n = r.drive("c15nav", args={"years": 400 if thorough else 40, "days": 12}, maxlines=600)
+    r.validate("Trace_Civil", ch_n)
+    r.sample_from([ch_m[0], ch_n[0]])
+    def key(e):
+        ev = e.get("ev")
+        if ev == "C15Month":
+            return ("m", e["y"], e["m"], e["s"])
+        if ev == "C15Nav":
+            return ("n", tuple(e["at"]), e["s"])
+        if ev == "C15Units":
+            return ("u", e["y"])
+        return None
+    r.count_distinct(ch_a + ch_m + ch_n, key)
+    def drop_week(e):
+        if len(e["weeks"]) < 2:
+            return False
+        e["weeks"].pop()
+        return True
+    r.negctl("Trace_Civil", ch_m[0], {"C15Month": [
+        (bump(["wom", 1]), "C15.weeksOfMonth"), (drop_week, "C15.month.weeks.count"),
+        (bump(["per", 3, 2]), "C15.week.index"), (bump(["per", 3, 3]), "C15.week.indexInYear"),
+        (bump(["per", 10, 6]), "C15.week.firstDay"),
+        (lambda e: "idx" in e["weeks"][0] and bump(["weeks", 0, "days", 2, 2])(e), "C15.week.days"),
+        (lambda e: "idx" in e["weeks"][0] and len(e["weeks"][0]["dim"]) > 0 and bump(["weeks", 0, "dim", 0, 2])(e), "C15.week.daysInMonth"),
+        (lambda e: "days" in e and bump(["days", 5, 2])(e), "C15.month.days")],
+        "C15Units": [(bump(["per", 4, "si"]), "C15.season"), (bump(["ymonths", 3, 1]), "C15.year.months")]})
+    r.negctl("Trace_Civil", ch_n[0], {"C15Nav": [
+        (bump(["wf", 3, 4]), "C15.week.next"), (bump(["ws", 2, "r", "idx"]), "C15.week.nextSeparate"),
+        (bump(["ws", 9, "b", "first", 2]), "C15.week.nextSeparate.back"),
+        (bump(["un", 5, 2]), "C15.month.next"), (bump(["un", 5, 7]), "C15.season.next"), (bump(["un", 5, 17]), "C15.year.next")]})
